@@ -8,6 +8,8 @@ import (
 	"os/exec"
 	"path/filepath"
 	"runtime"
+	"runtime/debug"
+	"runtime/pprof"
 	"sort"
 	"strings"
 	"time"
@@ -95,10 +97,10 @@ type HResult struct {
 
 func defaultInitPkgs() map[string]bool {
 	m := map[string]bool{}
-	for _, p := range []string{"common", "crypto", "config", "kernel", "storage", "p2p", "util", "util/base58", "logger", "zzrt", "kernel/internal/clock", "p2p/internal"} {
+	for _, p := range []string{"common", "crypto", "config", "kernel", "storage", "p2p", "util", "logger", "zzrt", "kernel/internal/clock", "p2p/internal"} {
 		m[modPath+"/"+p] = true
 	}
-	for _, p := range []string{"io", "bytes", "encoding/hex", "encoding/binary", "unicode/utf8", "sort", "strconv", "math/bits", "encoding/base64"} {
+	for _, p := range []string{"io", "bytes", "encoding/hex", "encoding/binary"} {
 		m[p] = true
 	}
 	return m
@@ -172,6 +174,13 @@ func main() {
 	if len(os.Args) < 2 {
 		fatal("usage: gosym check <PROP> quick|thorough | run ... | replay <file>")
 	}
+	debug.SetGCPercent(300)
+	debug.SetMemoryLimit(40 << 30)
+	if pf := os.Getenv("GOSYM_PROF"); pf != "" {
+		f, _ := os.Create(pf)
+		pprof.StartCPUProfile(f)
+		defer pprof.StopCPUProfile()
+	}
 	switch os.Args[1] {
 	case "check":
 		fs := flag.NewFlagSet("check", flag.ExitOnError)
@@ -184,7 +193,9 @@ func main() {
 		if fs.NArg() < 2 {
 			fatal("usage: gosym check [flags] <PROP> quick|thorough")
 		}
-		os.Exit(cmdCheck(fs.Arg(0), fs.Arg(1), *only, *trace, *logDir, *noReplay, *verbose))
+		rc := cmdCheck(fs.Arg(0), fs.Arg(1), *only, *trace, *logDir, *noReplay, *verbose)
+		pprof.StopCPUProfile()
+		os.Exit(rc)
 	case "replay":
 		if len(os.Args) < 3 {
 			fatal("usage: gosym replay <cex.json>")
